@@ -202,14 +202,36 @@ func c02Answer(tree route.Tree, raw string) c02Ans {
 	return a
 }
 
-func c02SeqTree(p *route.Parser, routes []string) (route.Tree, bool) {
-	cat, bad := mkCatalogue(p, routes)
-	if len(bad) > 0 {
-		return nil, false
+// c02Refused marks an entry of a route list as an attempt that the tree refuses (the entry is tried in its
+// place and leaves the tree as it was).
+const c02Refused = "REFUSED:"
+
+// c02Accepted: the entries of a route list that are registered.
+func c02Accepted(routes []string) []string {
+	var out []string
+	for _, r := range routes {
+		if !strings.HasPrefix(r, c02Refused) {
+			out = append(out, r)
+		}
 	}
+	return out
+}
+
+func c02SeqTree(p *route.Parser, routes []string) (route.Tree, bool) {
 	tree := route.NewTree()
-	for _, cr := range cat {
-		if _, err, pan := safeAddRoute(tree, cr.AST); err != nil || pan != nil {
+	for _, text := range routes {
+		cat, bad := mkCatalogue(p, []string{strings.TrimPrefix(text, c02Refused)})
+		if len(bad) > 0 || len(cat) != 1 {
+			return nil, false
+		}
+		_, err, pan := safeAddRoute(tree, cat[0].AST)
+		if strings.HasPrefix(text, c02Refused) {
+			if err == nil && pan == nil {
+				return nil, false // accepted after all: C08's business
+			}
+			continue
+		}
+		if err != nil || pan != nil {
 			return nil, false
 		}
 	}
@@ -256,13 +278,22 @@ func c02Sequences(r *core.Run, p *route.Parser) {
 	n := len(c02SeqRoutes)
 	r.Parallel(func(w, nw int, l *core.Local) {
 		m := ref.NewMatcher()
-		for c := w; c < n*n; c += nw {
+		for cc := w; cc < 2*n*n; cc += nw {
 			if r.Expired() {
 				return
 			}
+			c := cc % (n * n)
 			routes := []string{c02SeqRoutes[c/n], c02SeqRoutes[c%n]}
 			if c/n == c%n {
 				routes = routes[:1]
+			}
+			if cc >= n*n {
+				// between the two registrations an attempt that is refused only after it has gone two segments
+				// deep below a literal of its own (it leaves the tree as it was)
+				if len(routes) < 2 {
+					continue
+				}
+				routes = []string{routes[0], c02Refused + "/e/{q}/{q}", routes[1]}
 			}
 			tree, ok := c02SeqTree(p, routes)
 			if !ok {
@@ -271,7 +302,7 @@ func c02Sequences(r *core.Run, p *route.Parser) {
 			}
 			l.States++
 			fresh := make([]c02Ans, len(paths))
-			cat, _ := mkCatalogue(p, routes)
+			cat, _ := mkCatalogue(p, c02Accepted(routes))
 			for i, pth := range paths {
 				t, _ := c02SeqTree(p, routes)
 				fresh[i] = c02Answer(t, pth)
